@@ -82,6 +82,12 @@ claim('C12', 'panic-site inventory with local discharge proofs (guards, filter/p
       'return (outcome, nil) only on paths no error store reaches and otherwise the error just stored; every FetchAll is cut by a positive cap on the descriptor fetched; no decoder error is dropped. '
       'Covers the enumerated panic classes of the module\'s own code for all inputs and configurations; panics and allocations inside dependencies are not analysed.', 'DESIGN.md 2/C12')
 
+claim('C13', 'must-check gates per exit and per completed loop iteration + certified sanitizer + exact-set provenance on SSA',
+      'Static, all-paths: GetCertificates (found through the interface it implements; a directory-loader helper is followed) succeeds only through known type, certified single-component name, SysPath/Lstat/ReadDir success, real directory, '
+      'and for every entry: regular file judged on the entry itself (never a symlink-following Stat), read success, at least one certificate, every certificate CA or self-signed, and self-signed roots for tsa stores; the returned slice is appended only from '
+      'ReadCertificateFile(Join(SysPath(truststore/x509/type/name), entry.Name())) and is what success exits return (nothing cached or shared); every failing exit returns nil and no failing edge continues the loop; an empty result fails. '
+      'Certificate parsing is trusted to notation-core-go / crypto/x509.', 'DESIGN.md 2/C13')
+
 NA_REASON = {}
 
 def main():
